@@ -441,6 +441,7 @@ type svWorkload struct {
 	outSeq    int
 	wantDt    time.Duration
 	modShared bool
+	lastBatchPaused, lastBatchStarted bool
 }
 
 func newServiceWorkload() Workload {
@@ -1064,6 +1065,21 @@ func (w *svWorkload) script(v *svSnap) []rig.Tx {
 		}
 		return []rig.Tx{w.txCtxOp(c0, op, id, "", nil)}
 	}
+	// the context with two batches in total: while its second (last) batch is in flight with its request unanswered
+	// (scripted contexts leave every batch with counter%3 == 2 unanswered), the consumer pauses it and starts it again
+	if id := findCtx(c1, "", func(rc svtypes.RequestContext) bool {
+		return rc.Repeated && rc.RepeatedTotal == 2 && rc.RepeatedFrequency == 4 && rc.BatchCounter == 2 && rc.BatchState == svtypes.BATCHRUNNING
+	}); id != "" {
+		switch rc := v.Ctxs[id]; {
+		case rc.State == svtypes.RUNNING && !w.lastBatchPaused:
+			w.lastBatchPaused = true
+			txs = append(txs, w.txCtxOp(c1, "pause", id, "", nil))
+		case rc.State == svtypes.PAUSED && !w.lastBatchStarted:
+			w.lastBatchStarted = true
+			txs = append(txs, w.txCtxOp(c1, "start", id, "", nil))
+			w.run.Count("restart-during-last-batch", 1)
+		}
+	}
 	switch w.n {
 	case 0:
 		p := v.Params
@@ -1098,6 +1114,7 @@ func (w *svWorkload) script(v *svSnap) []rig.Tx {
 			w.txCall(c0, "svc-a", []*rig.Account{P[0], P[1]}, w.hugeCap(), 2, true, 2, 3, "scripted"),
 			w.txCall(w.poor, "svc-a", []*rig.Account{P[0]}, w.hugeCap(), 2, true, 2, -1, "scripted-poor"),
 			w.txCall(c1, "svc-b", []*rig.Account{P[2]}, w.hugeCap(), 3, false, 0, 0, "scripted"),
+			w.txCall(c1, "svc-a", []*rig.Account{P[0]}, w.hugeCap(), 3, true, 4, 2, "scripted-last-batch"),
 			w.txModCreate(c1, svCreateArgs{Service: "svc-a", Providers: []string{P[0].Addr.String(), P[1].Addr.String()}, Consumer: c1.Addr.String(), FeeCap: w.hugeCap().String(), Timeout: 2, Repeated: true, Freq: 3, Total: 2, Threshold: 2}, "scripted"),
 		)
 		// idle-gap restart, variant A: frequency = timeout+4; paused right after batch 1 expired, restarted one block later,
@@ -1734,7 +1751,7 @@ func runService(run *ev.Run, c int, mode string) {
 	} else {
 		for _, n := range []string{"answered", "expired", "hostile-foreign-provider-rejected", "hostile-duplicate-rejected", "hostile-after-expiry-rejected", "hostile-stranger-rejected",
 			"one-shot-removed", "period-checked", "paused-block", "auto-pause", "total-reached", "callback-threshold-met", "callback-threshold-unmet", "empty-batch", "queue-check",
-			"restart-in-idle-gap", "restart-in-idle-gap-less-than-timeout-before-batch"} {
+			"restart-in-idle-gap", "restart-in-idle-gap-less-than-timeout-before-batch", "restart-during-last-batch"} {
 			run.Require(n, 1)
 		}
 	}
@@ -1867,6 +1884,16 @@ func (d *svDirector) invariants(s *svSnap, where string) {
 	if df := svMapDiff(liab, svBig(s.Bal[svRequestAcc])); len(df) > 0 {
 		run.Violation("C07:service:request-escrow-vs-liabilities", map[string]any{"where": where, "height": s.Height, "diff": df},
 			"request escrow differs from active request fees + unwithdrawn earned fees at height %d (%s): %v (expected = liabilities, got = escrow balance)", s.Height, where, df)
+	}
+	// R2b a fee must not outlive its request's expiration height: after the end block of height H every request still
+	// active expires later than H (otherwise its fee is neither refunded nor earned)
+	if where == "after end block" {
+		for _, id := range sortedKeys(s.Active) {
+			if rq, ok := s.Reqs[id]; ok && rq.ExpirationHeight <= s.Height && !rq.ServiceFee.IsZero() {
+				run.Violation("C07:service:fee-held-past-expiration", map[string]any{"height": s.Height, "request": id, "expiration_height": rq.ExpirationHeight, "fee": rq.ServiceFee.String()},
+					"request %s expired at height %d but is still active after the end block of height %d: its fee %s was neither refunded nor earned", id, rq.ExpirationHeight, s.Height, rq.ServiceFee)
+			}
+		}
 	}
 	// R3 owner tally == sum of its providers' tallies
 	byOwner := map[string]map[string]*big.Int{}
